@@ -88,6 +88,13 @@ def extra_configs(cx, doc):
     # module and one of its members both denied (either order)
     add([["os"], ["os", "exit"]], [])
     add([["vhost", "sub"], ["vhost", "sub", "deep", "leaf"]], [])
+    # long denylists in which some dotted names do not resolve (module not installed on this host, or removed as a
+    # whole by the same list) stand between names that do: in whatever order the list is applied, every name that
+    # resolves must be gone
+    add([["aws", "config"], ["os", "exit"], ["zzz", "a"], ["vhost", "sub", "leaf"], ["strings", "split"]], [])
+    add([["exec"], ["exec", "command"], ["os", "exit"], ["os", "remove_all"], ["vhostfn"]], [])
+    add([["math"], ["math", "abs"], ["math", "zzz"], ["os", "getenv"], ["time", "now"], ["vhost", "sub", "deep", "leaf"]], [])
+    add([["a", "b"], ["vhost"], ["vhost", "sub", "leaf"], ["vhostfn2"], ["os", "exit"]], [], True)
     if cx.quick():
         # quick: a sample of the single-name overrides (thorough enumerates all of them in the spec)
         pool = list(names)
